@@ -35,6 +35,7 @@ class Contract:
         self.notes = kw.pop("notes", "")
         self.aux = set(kw.pop("aux", []))
         self.options = dict(kw.pop("options", {}))
+        self.counters = dict(kw.pop("counters", {}))           # elem class -> {name: "pred over x"}
         self.ghost_exit = dict(kw.pop("ghost_exit", {}))         # "self.ghost_field" -> expr, applied at every exit before the clauses             # engine options, e.g. {"div": "uninterpreted"}                   # labels of auxiliary (non property-level) clauses
         if kw:
             raise TypeError(f"unknown contract keys: {sorted(kw)}")
